@@ -28,14 +28,60 @@ def world(qcases=4000, tcases=240000, miri=True, asan=True):
     return {"quick": quick, "thorough": thorough}
 
 
+def script(engine, path, args, timeout=3000):
+    return {"flavour": "script", "engine": engine, "script": path, "args": args, "cases": 0, "timeout": timeout}
+
+
+def storage(prop, qcases=24000, tcases=800000, miri_q=False):
+    quick = [st("dbg", "storage", qcases, 70, 8), st("rel", "storage", qcases, 70, 8)]
+    thorough = [
+        st("dbg", "storage", tcases, 80, 16, 3000),
+        st("rel", "storage", tcases, 80, 16, 3000),
+        st("rel", "storage", 3000, 60, 16, 3000, far=1),
+        st("asan", "storage", 30000, 70, 16, 3000),
+    ]
+    return quick, thorough
+
+
+def with_storage(prop, base):
+    q, t = storage(prop)
+    return {"quick": base["quick"] + q, "thorough": base["thorough"] + t}
+
+
+def only_storage(prop):
+    q, t = storage(prop)
+    return {"quick": q, "thorough": t}
+
+
 PLANS = {
     "C01": world(),
     "C02": world(),
-    "C03": world(),
+    "C03": with_storage("C03", world()),
+    "C04": only_storage("C04"),
     "C05": world(),
-    "C08": world(),
+    "C08": with_storage("C08", world()),
     "C09": world(),
+    "C11": {
+        "quick": [st("dbg", "dispatch", 4000, 24, 8), st("rel", "dispatch", 4000, 24, 8)],
+        "thorough": [st("dbg", "dispatch", 40000, 24, 16, 3000), st("rel", "dispatch", 40000, 24, 16, 3000),
+                     st("tsan", "dispatch", 1600, 24, 8, 3000)],
+    },
+    "C12": only_storage("C12"),
+    "C13": only_storage("C13"),
+    "C14": {
+        "quick": [st("dbg", "saveload", 12000, 60, 8), st("rel", "saveload", 12000, 60, 8)],
+        "thorough": [st("dbg", "saveload", 200000, 60, 16, 3000), st("rel", "saveload", 200000, 60, 16, 3000)],
+    },
+    "C15": {
+        "quick": [st("dbg", "saveload", 12000, 60, 8), st("rel", "saveload", 12000, 60, 8)],
+        "thorough": [st("dbg", "saveload", 200000, 60, 16, 3000), st("rel", "saveload", 200000, 200, 16, 3000)],
+    },
     "C17": world(miri=False, asan=False),
+    "C18": {
+        "quick": [script("derivegen", "derivegen/derivegen.py", ["--types", 60, "--values", 200, "--batches", 2])],
+        "thorough": [script("derivegen", "derivegen/derivegen.py", ["--types", 1500, "--values", 2000, "--batches", 10,
+                                                                    "--formats", "json,ron", "--markers", 2])],
+    },
 }
 
 LEVELS = {}
@@ -53,6 +99,23 @@ RULES = {
     "C09": "histories with lazy insert / insert_all / remove / exec / exec_mut / LazyBuilder and nested enqueues over 1-6 maintains; non-trivial = history with >=1 nested enqueue and >=3 queued actions executed",
     "C17": "histories incl. long ones with failing batches weighted up; non-trivial = history with a failing batch whose killed prefix is non-empty followed by >=1 creation",
 }
+
+RULES.update({
+    "C04": "random operation sequences (18 handle-taking access paths, shared/mutable/lending joins, entries(), full/partial/early-dropped drain, clear, slice views, entity churn) per storage kind x wrapper (17 combinations) over dense, sparse and layer-boundary index sets, compared with a BTreeMap after every operation; "
+           "non-trivial = history with a remove-from-the-middle followed by a re-insert (dense swap-remove path) and, for slice-capable kinds, >=1 slice comparison",
+    "C11": "random system graphs (331 system-data shapes over 4 component storages + Entities + Read<LazyUpdate>, random DAG dependencies, barriers, thread-local systems, pools of 1-32 threads, 3-10 dispatches each); "
+           "non-trivial = graph with >=2 systems sharing a storage of which >=1 writes and a dispatch in which >=2 systems overlapped in logical time",
+    "C12": "the C04 operation sequences on the 11 tracked wrapper/inner combinations with a registered reader; window = one operation; event emission toggled at random points; clear() excluded; "
+           "non-trivial = history with removals through >=2 of remove / entry / drain / entity deletion and >=1 read-only access checked silent",
+    "C13": "restricted views: (&restrict()).join/lend_join, (&mut restrict_mut()).join/lend_join with seeded subsets fetched via get / get_mut (written or not) and get_other / get_other_mut lookups of live, component-less, dead and stale-reused entities; "
+           "non-trivial = run with a strict, non-empty subset fetched mutably on a tracked storage (any restricted join for untracked kinds)",
+    "C14": "seeded worlds (0-60, occasionally 300 entities; random marked subset; 6 serialised component types incl. derived ConvertSaveload structs/enums holding Entity; self loops, cycles, forward references; JSON record order permuted), both marker kinds, RON and JSON, serialize and serialize_recursive; "
+           "non-trivial = world with a cycle or forward reference among transferred entities and >=1 entity lacking >=1 serialised component type",
+    "C15": "histories of mark / create-marked (4 paths) / delete / maintain / allocator.maintain / serialise / deserialise (own past buffers, other worlds, repeated, ids above the counter); marker-uniqueness checked after every step; "
+           "non-trivial = history containing a load that both updates >=1 existing entity (removing >=1 absent component) and creates >=1 new one, after >=1 deletion that left a stale mapping",
+    "C18": "type definitions drawn from the grammar of shapes the derive macros accept (named/tuple structs 1-12 fields, enums mixing unit/tuple/struct variants, nesting <= 3, generics, skip and forwarded attributes, Entity / Probe / plain fields), each compiled against the real macro and run on seeded values; "
+           "non-trivial = type with >=2 fields of the same type or >=2 variants and >=1 Entity reachable; distinct = distinct shape hashes",
+})
 
 ASSUMPTIONS = {
     "_common": [
